@@ -88,62 +88,112 @@ func loadLocalsSnapshot(verif string) map[string][]varRec {
 	return m
 }
 
-// renameMap aligns the snapshot with the current declarations.
-func renameMap(snap, cur []varRec) map[string]string {
-	if len(snap) == 0 {
-		return nil
-	}
-	cnt := map[string]int{}
-	for _, v := range cur {
-		cnt[v.Name]++
-	}
-	scnt := map[string]int{}
-	for _, v := range snap {
-		scnt[v.Name]++
-	}
-	common := map[string]int{}
-	for n, k := range scnt {
-		if cnt[n] < k {
-			k = cnt[n]
-		}
-		common[n] = k
-	}
-	strip := func(l []varRec) []varRec {
-		seen := map[string]int{}
-		var r []varRec
-		for _, v := range l {
-			if seen[v.Name] < common[v.Name] {
-				seen[v.Name]++
-				continue
-			}
-			r = append(r, v)
-		}
-		return r
-	}
-	s, c := strip(snap), strip(cur)
-	if len(s) == 0 || len(s) != len(c) {
-		return nil
-	}
-	m := map[string]string{}
-	for i := range s {
-		if s[i].Type != c[i].Type {
-			return nil
-		}
-		if o, ok := m[s[i].Name]; ok && o != c[i].Name {
-			return nil
-		}
-		if cnt[s[i].Name] > 0 {
-			// the old name is still declared somewhere: ambiguous
-			return nil
-		}
-		m[s[i].Name] = c[i].Name
-	}
-	return m
+// renamePair: one variable of the snapshot and the variable of the current
+// tree it is aligned with (Occ: 1-based occurrence among the declarations of
+// the same name, in source order).
+type renamePair struct {
+	Old    string
+	OldOcc int
+	New    string
+	NewOcc int
 }
 
-// renamesOf returns the old-name -> new-name map of a function (nil if the
-// declarations are unchanged or cannot be aligned).
-func (p *Program) renamesOf(fn *ssa.Function) map[string]string {
+// alignVars aligns the snapshot with the current declarations: a longest
+// common subsequence on (name, type) fixes the unchanged variables; the
+// stretches in between must have equal length and, position by position,
+// equal types, and are paired up as renames.  nil: no alignment.
+func alignVars(snap, cur []varRec) []renamePair {
+	n, m := len(snap), len(cur)
+	if n == 0 || m == 0 {
+		return nil
+	}
+	if n == m {
+		same := true
+		for i := range snap {
+			if snap[i] != cur[i] {
+				same = false
+			}
+		}
+		if same {
+			return nil
+		}
+	}
+	// LCS table
+	l := make([][]int, n+1)
+	for i := range l {
+		l[i] = make([]int, m+1)
+	}
+	for i := n - 1; i >= 0; i-- {
+		for j := m - 1; j >= 0; j-- {
+			if snap[i] == cur[j] {
+				l[i][j] = l[i+1][j+1] + 1
+			} else if l[i+1][j] >= l[i][j+1] {
+				l[i][j] = l[i+1][j]
+			} else {
+				l[i][j] = l[i][j+1]
+			}
+		}
+	}
+	type ij struct{ i, j int }
+	var al []ij
+	i, j := 0, 0
+	gi, gj := 0, 0 // start of the current gap
+	// a stretch of unmatched variables is paired up only if both sides have
+	// the same length and types; otherwise (variables added or removed
+	// there) it yields no pairs
+	flush := func(i1, j1 int) bool {
+		if i1-gi != j1-gj {
+			return true
+		}
+		for k := 0; k < i1-gi; k++ {
+			if snap[gi+k].Type != cur[gj+k].Type {
+				return true
+			}
+		}
+		for k := 0; k < i1-gi; k++ {
+			al = append(al, ij{gi + k, gj + k})
+		}
+		return true
+	}
+	for i < n && j < m {
+		if snap[i] == cur[j] {
+			if !flush(i, j) {
+				return nil
+			}
+			al = append(al, ij{i, j})
+			i++
+			j++
+			gi, gj = i, j
+		} else if l[i+1][j] >= l[i][j+1] {
+			i++
+		} else {
+			j++
+		}
+	}
+	if !flush(n, m) {
+		return nil
+	}
+	occS := make([]int, n)
+	occC := make([]int, m)
+	cs, cc := map[string]int{}, map[string]int{}
+	for k, v := range snap {
+		cs[v.Name]++
+		occS[k] = cs[v.Name]
+	}
+	for k, v := range cur {
+		cc[v.Name]++
+		occC[k] = cc[v.Name]
+	}
+	var out []renamePair
+	for _, a := range al {
+		out = append(out, renamePair{snap[a.i].Name, occS[a.i], cur[a.j].Name, occC[a.j]})
+	}
+	return out
+}
+
+// renamesOf returns the alignment of a function's snapshot with its current
+// declarations (nil if they are unchanged or cannot be aligned).
+func (p *Program) renamesOf(fn *ssa.Function) []renamePair {
 	if p.localsSnap == nil || fn == nil {
 		return nil
 	}
@@ -153,14 +203,41 @@ func (p *Program) renamesOf(fn *ssa.Function) map[string]string {
 		return m
 	}
 	if p.renameCache == nil {
-		p.renameCache = map[*ssa.Function]map[string]string{}
+		p.renameCache = map[*ssa.Function][]renamePair{}
 	}
-	var m map[string]string
+	var m []renamePair
 	if snap, ok := p.localsSnap[p.funcKey(fn)]; ok {
-		m = renameMap(snap, p.funcVars(fn))
+		m = alignVars(snap, p.funcVars(fn))
 	}
 	p.renameCache[fn] = m
 	return m
+}
+
+// renamedCandidates: the current names of the variables that were called
+// name when the contracts were written (excluding name itself).
+func (p *Program) renamedCandidates(fn *ssa.Function, name string) []string {
+	var out []string
+	seen := map[string]bool{}
+	// a function literal also names the variables of its enclosing functions
+	for f := fn; f != nil; f = f.Parent() {
+		for _, pr := range p.renamesOf(f) {
+			if pr.Old == name && pr.New != name && !seen[pr.New] {
+				seen[pr.New] = true
+				out = append(out, pr.New)
+			}
+		}
+	}
+	return out
+}
+
+// renamedLocal maps local(name, k) of the snapshot to the current (name, k).
+func (p *Program) renamedLocal(fn *ssa.Function, name string, k int) (string, int) {
+	for _, pr := range p.renamesOf(fn) {
+		if pr.Old == name && pr.OldOcc == k {
+			return pr.New, pr.NewOcc
+		}
+	}
+	return name, k
 }
 
 // runLocalsSnapshot writes contracts/locals.json for every function under contract.
